@@ -233,7 +233,7 @@ def cells_to_val(cells, st=None):
         elif c is None:
             u = z3.BitVec('undef!%d' % next(_undef_ctr), 8)
             if st is not None:
-                st.undefs.add(u.get_id())
+                st.undefs[u.get_id()] = u        # keeps the term alive: ids are reused after gc
                 st.nundef += 1
             parts.append(u)
             i += 1
@@ -312,7 +312,7 @@ class State:
         s.pc = []
         s.model = None
         s.known = {}        # term id -> concrete value (after ForkOn)
-        s.undefs = set()
+        s.undefs = {}
         s.nundef = 0
         s.steps = 0
         s.cand = {}         # term id -> feasible values (over-approximation)
@@ -333,7 +333,7 @@ class State:
         t.pc = list(s.pc)
         t.model = s.model
         t.known = dict(s.known)
-        t.undefs = set(s.undefs)
+        t.undefs = dict(s.undefs)
         t.nundef = s.nundef
         t.steps = s.steps
         t.cand = dict(s.cand)
@@ -586,6 +586,8 @@ class VM:
             return tuple(s.cval(t, e) for t, e in v[1])
         if k == 'bytes':
             return tuple(v[1])
+        if k == 'splat':
+            return tuple([s.cval(v[1], v[2])] * ty.n)
         raise Inconclusive("constant %r" % (v,))
 
     def zero_of(s, ty):
@@ -823,6 +825,11 @@ class VM:
         if isinstance(ty, StructTy):
             offs, _ = ty.offsets(m)
             return tuple(s.load(st, e, addr + o) for e, o in zip(ty.els, offs))
+        if isinstance(ty, VecTy) and getattr(ty.el, 'bits', 8) == 1:
+            x = cells_to_val(s.load_bytes(st, addr, (ty.n + 7) // 8), st)
+            if not isinstance(x, int):
+                raise Inconclusive("symbolic <n x i1> load")
+            return tuple((x >> i) & 1 for i in range(ty.n))
         if isinstance(ty, ArrTy):
             es = ty.el.size(m)
             return tuple(s.load(st, ty.el, addr + i * es) for i in range(ty.n))
@@ -840,6 +847,9 @@ class VM:
             offs, _ = ty.offsets(m)
             for e, o, xv in zip(ty.els, offs, x):
                 s.store(st, e, addr + o, xv)
+            return
+        if isinstance(ty, VecTy) and getattr(ty.el, 'bits', 8) == 1:
+            s.store_bytes(st, addr, val_to_cells(_pack_bits(x), (ty.n + 7) // 8))
             return
         if isinstance(ty, ArrTy):
             es = ty.el.size(m)
@@ -1132,6 +1142,22 @@ class VM:
             env[ins.res] = _insert(x, idx, s.operand(fr, ety, ev))
         elif op == 'freeze':
             env[ins.res] = s.operand(fr, a[0], a[1])
+        elif op == 'shufflevector':
+            t1, va, vb, tm, vm_ = a
+            x = s.operand(fr, t1, va); y = s.operand(fr, t1, vb)
+            mask = s.operand(fr, tm, vm_)
+            both = tuple(x) + tuple(y)
+            env[ins.res] = tuple(both[i] if isinstance(i, int) and i < len(both) else 0 for i in mask)
+        elif op == 'insertelement':
+            t1, va, te, ve, ti, vi = a
+            x = list(s.operand(fr, t1, va))
+            i = s.concretize(st, s.operand(fr, ti, vi))
+            x[i] = s.operand(fr, te, ve)
+            env[ins.res] = tuple(x)
+        elif op == 'extractelement':
+            t1, va, ti, vi = a
+            x = s.operand(fr, t1, va)
+            env[ins.res] = x[s.concretize(st, s.operand(fr, ti, vi))]
         elif op == 'unreachable':
             raise Terminal('memerr', "reached 'unreachable' in %s" % fr.fn.name)
         elif op == 'fence':
@@ -1262,6 +1288,8 @@ class VM:
         return simp(r)
 
     def icmp(s, pred, ty, x, y):
+        if isinstance(ty, VecTy):
+            return tuple(s.icmp(pred, ty.el, a, b) for a, b in zip(x, y))
         bits = getattr(ty, 'bits', 64)
         if isinstance(x, int) and isinstance(y, int):
             if pred == 'eq':
@@ -1307,7 +1335,7 @@ class VM:
 
     def binop(s, op, ty, x, y, flags, st=None):
         if isinstance(ty, VecTy):
-            raise Inconclusive("vector arithmetic")
+            return tuple(s.binop(op, ty.el, a, b, flags, st) for a, b in zip(x, y))
         bits = ty.bits
         M = (1 << bits) - 1
         if isinstance(x, int) and isinstance(y, int):
@@ -1397,8 +1425,27 @@ class VM:
         return simp(r)
 
     def cast(s, op, ty, x, ty2):
-        if isinstance(x, tuple):
-            raise Inconclusive("vector cast")
+        if isinstance(x, tuple) or isinstance(ty2, VecTy):
+            if op != 'bitcast':
+                if isinstance(ty, VecTy) and isinstance(ty2, VecTy):
+                    return tuple(s.cast(op, ty.el, a, ty2.el) for a in x)
+                raise Inconclusive("vector cast " + op)
+            # bitcast through the little-endian bit image
+            if isinstance(ty, VecTy):
+                w = getattr(ty.el, 'bits', 64)
+                if not all(isinstance(a, int) for a in x):
+                    raise Inconclusive("bitcast of a symbolic vector")
+                bitsval = 0
+                for i, a in enumerate(x):
+                    bitsval |= (a & ((1 << w) - 1)) << (i * w)
+            else:
+                if not isinstance(x, int):
+                    raise Inconclusive("bitcast of a symbolic value to a vector")
+                bitsval = x
+            if isinstance(ty2, VecTy):
+                w2 = getattr(ty2.el, 'bits', 64)
+                return tuple((bitsval >> (i * w2)) & ((1 << w2) - 1) for i in range(ty2.n))
+            return bitsval & ((1 << ty2.bits) - 1)
         if op in ('ptrtoint', 'inttoptr', 'bitcast', 'addrspacecast'):
             b1 = getattr(ty, 'bits', 64); b2 = getattr(ty2, 'bits', 64)
             if b1 == b2:
@@ -1454,6 +1501,10 @@ class VM:
             ec = s.stats['ext_calls']
             ec[name] = ec.get(name, 0) + 1
             r = h(s, st, name, argv, ins)
+            if type(r) is tuple and len(r) == 2 and type(r[0]) is str and r[0] == 'switch!':
+                # the stub ran IR of its own and hands back the state to go on with
+                r[1].frames[-1].ip += 1
+                return r
             if ins.res is not None:
                 fr.env[ins.res] = r
             fr.ip += 1
@@ -1532,7 +1583,7 @@ def merge_states(vm, base, rets, bits):
     acc.run_keep = base.run_keep
     acc.base_len = base.base_len
     for o in rets:
-        acc.undefs |= o.st.undefs
+        acc.undefs.update(o.st.undefs)
         acc.nundef = max(acc.nundef, o.st.nundef)
         acc.steps = max(acc.steps, o.st.steps)
     am = acc.mem
@@ -1576,6 +1627,15 @@ def _ite_val(g, x, y, bits):
         return simp(z3.If(g, to_bool(x), to_bool(y)))
     w = x.size() if is_sym(x) else (y.size() if is_sym(y) else bits)
     return simp(z3.If(g, to_bv(x, w), to_bv(y, w)))
+
+
+def _pack_bits(lanes):
+    v = 0
+    for i, b in enumerate(lanes):
+        if not isinstance(b, int):
+            raise Inconclusive("symbolic <n x i1>")
+        v |= (b & 1) << i
+    return v
 
 
 def _insert(x, idx, v):
